@@ -54,6 +54,11 @@ func checkExactPositions(e *Entry, x string, res ParseResult) (viol map[string]s
 	vs := oracle.Preorder(root)
 	type fail struct{ sig, detail string }
 	fails := make([][]fail, len(vs))
+	inToks, _ := oracle.ImplLex(x)
+	tokAt := map[int]int{}
+	for k, t := range inToks {
+		tokAt[t.Pos] = k
+	}
 	for i, v := range vs {
 		n := v.Node
 		p, en, ok := safePosEnd(n)
@@ -64,12 +69,16 @@ func checkExactPositions(e *Entry, x string, res ParseResult) (viol map[string]s
 		tn := oracle.TypeName(n)
 		// an Ident that directly follows "." may be a digit run or keyword that only lexes as identifier there
 		afterDot := false
-		if _, isIdent := n.(*ast.Ident); isIdent {
-			j := p - 1
-			for j >= 0 && (x[j] == ' ' || x[j] == '\n' || x[j] == '\t') {
-				j--
+		if id, isIdent := n.(*ast.Ident); isIdent {
+			if k, ok := tokAt[p]; ok && k > 0 {
+				afterDot = inToks[k-1].Kind == "."
 			}
-			afterDot = j >= 0 && x[j] == '.'
+			// an identifier spelled like an expression-introducing pseudo keyword (a type or alias named
+			// SAFE_CAST / REPLACE_FIELDS) legitimately parses as something else on its own: same family as the
+			// exemptions the property names
+			if u := strings.ToUpper(id.Name); (u == "SAFE_CAST" || u == "REPLACE_FIELDS") && x[p] != '`' {
+				afterDot = true
+			}
 		}
 		// (a)
 		if se, pick, ok := standalone(n); ok && !afterDot {
@@ -144,17 +153,11 @@ func C06(r *explore.Run) {
 			c.Nontrivial(explore.Hash(text))
 		}
 	}
-	grammarSpace(r, "S4/grammar", 2, func(c *explore.Ctx, s *grammar.Sentence) {
-		text := s.Text()
-		c.Input(text)
-		c.Sample(s.Root + ": " + text)
-		en := specificEntry(s.Kind)
-		if en == "" {
-			en = "ParseStatement"
-		}
-		body(c, EntryByName(en), text)
-	})
+	// sentences of G (default spelling and, for few deviations, uniform re-spellings incl. CRLF), the corpus,
+	// and every accepted single-edit neighbour (inputs outside G that are nevertheless accepted)
+	grammarTreeSpace(r, 2, body)
 	corpusSpace(r, body)
+	editSpaceMode(r, 1, "light", body)
 }
 
 // ---------------------------------------------------------------------------
